@@ -485,7 +485,10 @@ func (idx *Index) Cleave(cleaveLabel uint64, toCleave []uint64, mutInfo dvid.Mut
 type SupervoxelChanges map[uint64]map[dvid.IZYXString]int32
 
 // ModifyBlocks modifies the receiver Index to incorporate supervoxel changes among the given blocks.
-func (idx *Index) ModifyBlocks(label uint64, sc SupervoxelChanges) error {
+// Supervoxels passed as members are known by the caller to belong to the label (e.g., through the
+// mapping) and are accepted even if the index currently holds no voxel of them.  Without members,
+// a new index is assumed to hold at least the supervoxel with the label's own id.
+func (idx *Index) ModifyBlocks(label uint64, sc SupervoxelChanges, members ...uint64) error {
 	if idx == nil {
 		return fmt.Errorf("cannot pass nil index into ModifyBlocks()")
 	}
@@ -493,8 +496,11 @@ func (idx *Index) ModifyBlocks(label uint64, sc SupervoxelChanges) error {
 		idx.Blocks = make(map[uint64]*proto.SVCount)
 	}
 	labelSupervoxels := idx.GetSupervoxels()
-	if len(labelSupervoxels) == 0 {
+	if len(labelSupervoxels) == 0 && members == nil {
 		labelSupervoxels[label] = struct{}{} // A new index has at least its original label
+	}
+	for _, supervoxel := range members {
+		labelSupervoxels[supervoxel] = struct{}{}
 	}
 	for supervoxel, blockChanges := range sc {
 		_, inSet := labelSupervoxels[supervoxel]
